@@ -280,4 +280,20 @@ theorem reachable_ref_unit_scale_one (s : RegState) (h : ReachableWF s) (c r : N
     (hr : (s.cls c).refUnit = some r) : r < s.units.length ∧ (s.unit r).equiv = some 1 :=
   (reachableWF_scaleInv h).refs c r hr
 
+/-! ### known finding D10: a definition denoting zero
+
+`L.new_unit('z', define_as = 0 * m)` is accepted and the unit gets scale 1
+(`num_elem or ONE` in `_make_unit`), not the 0 its definition denotes — the
+hypothesis `a ≠ 0` of `scale_of_multiple` cannot be dropped. -/
+
+def d10Base : RegState :=
+  (RegState.init.declClass
+    { name := "L", defineAs := none, refUnitSymbol := some "m", quantum := none }).1
+def d10State : RegState := (d10Base.newUnit 1 (some "z") (.qty 0 0)).1
+
+theorem scale_of_zero_multiple_FALSE :
+    (d10State.unit 1).symbol = "z" ∧ (d10State.unit 1).equiv = some 1 ∧
+    (d10State.unit 1).equiv ≠ some (0 * d10Base.nu 0) := by
+  decide +kernel
+
 end QM.Props.C15
